@@ -5,8 +5,16 @@ package main
 // decided in the same block; a proposal that expires; unstake → maturity → withdraw).
 
 import (
+	"bytes"
 	"flag"
 	"fmt"
+	"math/big"
+	"sort"
+
+	ethcommon "github.com/ethereum/go-ethereum/common"
+
+	acteth "github.com/Oneledger/protocol/action/eth"
+	ethchaindrv2 "github.com/Oneledger/protocol/chains/ethereum"
 
 	"github.com/Oneledger/protocol/action"
 	govact "github.com/Oneledger/protocol/action/governance"
@@ -41,7 +49,15 @@ func (s *scBuilder) empty(n int) {
 	}
 }
 
-var scenarioNames = []string{"govupdate", "alleg2", "govexpire", "stakecycle", "olvmmix"}
+var scenarioNames = []string{"govupdate", "alleg2", "govexpire", "stakecycle", "olvmmix", "ethlock"}
+
+// the genesis variant a scenario needs
+func scenarioGenesis(name string) string {
+	if name == "ethlock" {
+		return "eth"
+	}
+	return "default"
+}
 
 func scenarioHistory(name string, w *World) *History {
 	s := &scBuilder{h: &History{Name: name}}
@@ -138,6 +154,32 @@ func scenarioHistory(name string, w *World) *History {
 		s.empty(1)
 		s.block([][]byte{txOLVM(e1, nil, 2, "0", 200000, c17InitStore), txOLVM(e0, &a1, 2, "1", 20000, nil), txOLVM(e0, &a1, 2, "1", 30000, nil)}, "olvmcreate", "olvm lowgas", "olvm transfer")
 		s.empty(2)
+	case "ethlock":
+		// an ETH lock whose finality is reported by the witnesses one after the other (the node of a
+		// replica is, or is not, one of them), the mint, a redeem of part of it and its reports
+		s.empty(2)
+		wits := append([]ValSpec{}, w.Vals...)
+		sort.Slice(wits, func(i, j int) bool { return bytes.Compare(wits[i].Val.Addr, wits[j].Val.Addr) < 0 })
+		report := func(ethTx []byte, locker Key) {
+			var tn ethchaindrv2.TrackerName
+			tn.SetBytes(ethcommon.BytesToHash(ethTx).Bytes())
+			for i, v := range wits {
+				m := &acteth.ReportFinality{TrackerName: tn, Locker: locker.Addr, ValidatorAddress: v.Val.Addr, VoteIndex: int64(i), Success: true}
+				s.block([][]byte{mkTx(action.ETH_REPORT_FINALITY_MINT, m, GAS, s.memo(), v.Val), txSend(u1, u2.Addr, oltAmt("1000"), s.memo())}, fmt.Sprintf("ethreport witness %d", i), "send")
+				s.empty(1)
+			}
+		}
+		lock := c15LockBytes(big.NewInt(500), c15Contract, c15LockData, 1, c15S(1))
+		s.block([][]byte{mkTx(action.ETH_LOCK, acteth.Lock{Locker: u0.Addr, ETHTxn: lock}, GAS, s.memo(), u0)}, "ethlock")
+		s.empty(1)
+		report(lock, u0)
+		s.empty(2)
+		redeem := c15RedeemBytes(big.NewInt(200), 2)
+		s.block([][]byte{mkTx(action.ETH_REDEEM, acteth.Redeem{Owner: u0.Addr, To: ethcommon.BytesToAddress(u0.Addr), ETHTxn: redeem}, GAS, s.memo(), u0),
+			mkTx(action.ETH_LOCK, acteth.Lock{Locker: u1.Addr, ETHTxn: lock}, GAS, s.memo(), u1)}, "ethredeem", "ethlock duplicate")
+		s.empty(1)
+		report(redeem, u0)
+		s.empty(3)
 	default:
 		panic("unknown scenario " + name)
 	}
@@ -154,7 +196,7 @@ func scenarioMain(args []string) int {
 	fs.Parse(args)
 	w := NewWorld(3, 5, 2)
 	h := scenarioHistory(*name, w)
-	rep := NewReplica(w.Genesis(), ReplicaOpts{NodeVal: w.Vals[0].Val})
+	rep := NewReplica(genesisVariant(w, scenarioGenesis(*name)), ReplicaOpts{NodeVal: w.Vals[0].Val})
 	defer rep.Close()
 	rep.InitChain()
 	for i := range h.Blocks {
